@@ -170,7 +170,8 @@ SRC_TIE = {
     'C16': {'Card': ['calculate_check_digit', 'validate_check_digit', 'add_check_digit', 'mask'],
             'Misc': ['_get_tsp', '_pan_prefix']},
     'C18': {'Param': ['IpmParamReader._get_param_field'],
-            'ParamRow': ['IpmParamReader_next_row', 'IpmParamReader._get_param_field']},
+            'ParamRow': ['IpmParamReader_next_row', 'IpmParamReader._get_param_field'],
+            'ParamIndex': ['IpmParamReader_index_step', 'IpmParamReader_next_row', 'IpmParamReader._get_param_field']},
     'C17': {'Info': ['block_1014_check', 'encoding_check', 'bitmap_check', 'ipm_info', 'BitArray.tolist']},
 }
 
